@@ -62,7 +62,7 @@ def normalise(rho):
 
 
 def purity(rho):
-    return float(np.real(np.trace(rho @ rho)))
+    return float(np.real(np.vdot(rho.conj().T, rho)))
 
 
 def maxdiff(a, b):
